@@ -241,7 +241,7 @@ class _Pool:
 
 
 class Sched:
-    def __init__(self, cfg, chained=None, error_handler="protected"):
+    def __init__(self, cfg, chained=None, error_handler="protected", server_kwargs=None):
         from pygls.lsp.server import LanguageServer
         from pygls.io_ import run_async
         self.cfg = cfg
@@ -283,7 +283,7 @@ class Sched:
                 finally:
                     S.hook_depth.d = d
 
-        self.server = Server("sched", "v1")
+        self.server = Server("sched", "v1", **(server_kwargs or {}))      # e.g. protocol_cls= (C14)
         self.protocol = self.server.protocol
         self.server._thread_pool = _Pool(self)
         self._register(chained or {})
